@@ -59,6 +59,11 @@ TRun ==
      /\ \A t \in 1..Len(Ev.batches) :
           Chk("batches_partition_floor_n_over_size_observations",
               BatchesOK(Ev.batches[t].batches, Ev.n, Ev.batch_size))
+     \* which observations form the batches is drawn from the batch seed (three seeds: not three times the same split)
+     /\ Chk("batch_membership_is_drawn_from_the_batch_seed",
+            ("first_batches_other_seeds" \in DOMAIN Ev /\ Len(Ev.batches) > 0) =>
+               \E j \in 1..Len(Ev.first_batches_other_seeds) : Ev.first_batches_other_seeds[j] # Ev.batches[1].batches)
+     \* (the two conjuncts of the open known finding come last: a trace stops at its first failing conjunct)
      /\ Chk("fresh_batch_key_in_every_iteration",
             Ev.batch_size < Ev.n => AllDistinct([t \in 1..Len(Ev.batches) |-> Ev.batches[t].subkey]))
      /\ Chk("every_observation_used_in_some_batch",
